@@ -1,4 +1,5 @@
 import ScrapliProps.C01Lemmas
+import ScrapliProps.C01
 /-
   C02 — results do not depend on how device output is chunked or decorated.
   Property theorems only.  Quantifiers: every two cut lists / piece lists of the same stream;
@@ -40,6 +41,35 @@ theorem mixed_chunking_independent {P : Bytes → Bool} {cfg : Cfg} {dv : LineDe
     mixed_session_in_step hf hfirst hout stripPrompt ops hg { avail := res, cuts := cuts2 } hres
   subst e1 e2
   exact ⟨_, w1, w2, h1, h2, by rw [wr1, wr2]⟩
+
+/-- **chunking independence of interactive sessions** (`send_inputs_interact`): any two
+    segmentations of the reads give the same processed result, the same bytes written (so the same
+    exchanges took place — in particular both stop at the same interaction-complete answer), and
+    leave the device at the same point of its script. -/
+theorem interact_chunking_independent {cfg : Cfg} {complete : List Bytes} (hstrict : cfg.rough = false)
+    (hret : cfg.ret = [NL]) (ps : List (Ev × Step)) (hne : ps ≠ []) (extra : List Step)
+    (hg : ∀ p ∈ ps, ∃ Pr Pc, GoodStep cfg complete Pr Pc p.1 p.2)
+    (res : Bytes) (hres : ∀ x ∈ res, isHws x = true) (cuts1 cuts2 : List Nat) :
+    ∃ raw1 raw2 r w1 w2 d,
+      sendInputsInteract cfg scriptDev (ps.map (·.1)) complete
+        ({ avail := res, cuts := cuts1 }, ps.map (·.2) ++ extra) = some ((raw1, r), (w1, d)) ∧
+      sendInputsInteract cfg scriptDev (ps.map (·.1)) complete
+        ({ avail := res, cuts := cuts2 }, ps.map (·.2) ++ extra) = some ((raw2, r), (w2, d)) ∧
+      w1.writes = w2.writes := by
+  obtain ⟨raw1, w1, h1, _, _, _, wr1⟩ :=
+    interact_exact hstrict hret ps extra hg { avail := res, cuts := cuts1 } hres
+  obtain ⟨raw2, w2, h2, _, _, _, wr2⟩ :=
+    interact_exact hstrict hret ps extra hg { avail := res, cuts := cuts2 } hres
+  obtain ⟨raw1', s1, n1⟩ :=
+    interact_result_normalized hstrict hret ps hne extra hg { avail := res, cuts := cuts1 } hres
+  obtain ⟨raw2', s2, n2⟩ :=
+    interact_result_normalized hstrict hret ps hne extra hg { avail := res, cuts := cuts2 } hres
+  rw [h1] at n1; rw [h2] at n2
+  simp only [Option.some.injEq, Prod.mk.injEq] at n1 n2
+  obtain ⟨⟨_, e1⟩, _⟩ := n1
+  obtain ⟨⟨_, e2⟩, _⟩ := n2
+  refine ⟨raw1, raw2, _, w1, w2, _, h1, ?_, by rw [wr1, wr2]⟩
+  rw [h2, e1, e2]
 
 /-! ### carriage returns -/
 
